@@ -608,6 +608,9 @@ func (v Value) Equals(b Value) bool {
 		return b.t == TypeString && v.value.(stringT) == b.value.(stringT)
 	case v.t.base() == TypeStruct, v.t == TypeFunc:
 		return (b.t == TypeNil && v.value == nil) || v.value == b.value
+	case v.t == TypeObject:
+		// host objects (errors.New values, wrapped natives) compare by identity
+		return (b.t == TypeNil && v.value == nil) || (b.t == TypeObject && v.value == b.value)
 	case v.t == TypeNil && b.t == TypeNil:
 		return true
 	case v.t.base() == TypeSlice && b.t == TypeNil:
